@@ -18,7 +18,7 @@ diff = f"{base}/out/change{n}.diff"
 env = dict(os.environ, CARGO_NET_OFFLINE="true", RUST_BACKTRACE="0")
 def run(cmd, cwd=None, timeout=3600, extra=None):
     e = dict(env, **(extra or {}))
-    p = subprocess.run(cmd, cwd=cwd, env=e, capture_output=True, text=True, timeout=timeout, shell=isinstance(cmd, str))
+    p = subprocess.run(cmd, cwd=cwd, env=e, capture_output=True, text=True, timeout=timeout, shell=isinstance(cmd, str), executable="/bin/bash" if isinstance(cmd, str) else None)
     return p.returncode, p.stdout + p.stderr
 res = {"property": pid, "change": n, "checks": {}}
 rc, out = run(["git", "-C", wt, "status", "--short"])
@@ -33,10 +33,21 @@ try:
         rc, out = run("cargo test --offline --workspace --no-fail-fast 2>&1 | grep -E '^test result|warning: unused|^error' ", cwd=wt, timeout=3000)
         res["suite_with_change"] = out.strip().splitlines()
         demo = f"{base}/out/demo{n}"
+        if not os.path.isfile(f"{demo}/Cargo.toml") and os.path.isfile(f"{base}/demo{n}/Cargo.toml"):
+            demo = f"{base}/demo{n}"          # some seeders left the buildable copy beside out/
+        res["demo_dir"] = demo
+        mode = []
         if os.path.isdir(demo):
-            rc, out = run("cargo run --offline --quiet 2>&1 | tail -5", cwd=demo, timeout=1800)
-            rc2, _ = run("cargo run --offline --quiet >/dev/null 2>&1", cwd=demo, timeout=1800)
-            res["demo_with_change"] = {"exit": rc2, "tail": out.strip()[-400:]}
+            runner = "sh run.sh" if os.path.isfile(f"{demo}/run.sh") else "cargo run --offline --quiet"
+            rc2, out = run(f"{runner} 2>&1 | tail -5; exit ${{PIPESTATUS[0]}}", cwd=demo, timeout=2400)
+            rc2, _ = run(f"{runner} >/dev/null 2>&1", cwd=demo, timeout=2400)
+            if rc2 == 0 and runner.startswith("cargo"):
+                # release-only manifestation (debug_assert! side effects, wrapping arithmetic)
+                mode = ["--release"]
+                rc2, out2 = run("cargo run --offline --quiet --release 2>&1 | tail -5", cwd=demo, timeout=2400)
+                rc2, _ = run("cargo run --offline --quiet --release >/dev/null 2>&1", cwd=demo, timeout=2400)
+                out = out2
+            res["demo_with_change"] = {"exit": rc2, "mode": "release" if mode else "dev", "tail": out.strip()[-400:]}
         res["confirm_s"] = round(time.time() - t0)
     for c in checks:
         t0 = time.time()
@@ -55,9 +66,12 @@ try:
         res["checks"][c] = {"exit": rc, "lines": [l[:200] for l in lines], "replay": rep, "s": round(time.time() - t0)}
 finally:
     run(["git", "-C", wt, "apply", "-R", diff])
-    if confirm and os.path.isdir(f"{base}/out/demo{n}"):
-        rc2, out = run("cargo run --offline --quiet 2>&1 | tail -3", cwd=f"{base}/out/demo{n}", timeout=1800)
-        rc3, _ = run("cargo run --offline --quiet >/dev/null 2>&1", cwd=f"{base}/out/demo{n}", timeout=1800)
+    if confirm and res.get("demo_dir") and os.path.isdir(res["demo_dir"]):
+        demo = res["demo_dir"]
+        rel = " --release" if res.get("demo_with_change", {}).get("mode") == "release" else ""
+        runner = "sh run.sh" if os.path.isfile(f"{demo}/run.sh") else f"cargo run --offline --quiet{rel}"
+        rc3, out = run(f"{runner} 2>&1 | tail -3", cwd=demo, timeout=2400)
+        rc3, _ = run(f"{runner} >/dev/null 2>&1", cwd=demo, timeout=2400)
         res["demo_without_change"] = {"exit": rc3, "tail": out.strip()[-300:]}
 print(json.dumps(res, indent=1))
 open(f"{rdir}/results.jsonl", "a").write(json.dumps(res) + "\n")
